@@ -30,6 +30,23 @@ def bucket_insert(prog, rep):
     asg = [n for n in walk_own(fi.node) if isinstance(n, ast.Assign) and n.value is ones[0]]
     rets = [n for n in walk_own(fi.node) if isinstance(n, ast.Return)]
     okr = len(asg) == 1 and len(rets) == 1 and norm(rets[0].value) == norm(asg[0].targets[0]) or any(r.value is ones[0] for r in rets)
+    if not okr and len(rets) == 1 and isinstance(rets[0].value, ast.Name):
+        # through copies: every definition the returned name can have is (a copy of) the insert_one result, or None (list path)
+        from ..sqlmodel import local_defs
+
+        seen, todo, srcs = set(), [rets[0].value.id], []
+        while todo:
+            nm = todo.pop()
+            if nm in seen:
+                continue
+            seen.add(nm)
+            for d in local_defs(fi, nm):
+                v = getattr(d, "value", None)
+                if isinstance(d, ast.Assign) and isinstance(v, ast.Name):
+                    todo.append(v.id)
+                else:
+                    srcs.append(v)
+        okr = any(v is ones[0] for v in srcs) and all(v is ones[0] or (isinstance(v, ast.Constant) and v.value is None) for v in srcs)
     rep.check(okr, "INSERT-PATHS", fi.short, "single insert result", "returns what insert_one returned", "the event returned for a single insert is not the backend's (id-bearing) result", fi.loc())
     rep.check(is_param_ref(manys[0].args[1], fi, "events") if len(manys[0].args) > 1 else False, "INSERT-PATHS", fi.short, "bulk argument", "insert_many(bucket, events)", "the list handed to insert_many is not the caller's", fi.loc(manys[0]))
 
